@@ -149,6 +149,107 @@ func roleEdges(fn *ssa.Function, role string) map[core.CFGEdge]bool {
 	}
 	isOld := role == "oldOnly" || role == "both"
 	isNew := role == "newOnly" || role == "both"
+	out := roleEdgesByFacts(fn, isOld, isNew)
+	// conditions that are a value (`case a && b:` materialises the conjunction as a phi): evaluate them
+	// under the role and remove the branch that cannot be taken
+	for _, b := range fn.Blocks {
+		if len(b.Instrs) == 0 {
+			continue
+		}
+		iff, ok := b.Instrs[len(b.Instrs)-1].(*ssa.If)
+		if !ok {
+			continue
+		}
+		if v, known := evalUnderRole(iff.Cond, isOld, isNew, 0); known {
+			if v {
+				out[core.CFGEdge{B: b, SI: 1}] = true
+			} else {
+				out[core.CFGEdge{B: b, SI: 0}] = true
+			}
+		}
+	}
+	return out
+}
+
+// evalUnderRole: the value of a boolean built from IsOldCommittee()/IsNewCommittee(), !, and
+// short-circuit && / || (as branches or as the phi go/ssa materialises) for a party of the given role.
+func evalUnderRole(v ssa.Value, isOld, isNew bool, d int) (val, known bool) {
+	if d > 6 {
+		return false, false
+	}
+	v = core.Strip(v)
+	switch x := v.(type) {
+	case *ssa.Const:
+		if b, ok := core.ConstBool(x); ok {
+			return b, true
+		}
+	case *ssa.Call:
+		n := core.CalleeName(x)
+		if strings.HasSuffix(n, "ReSharingParameters).IsOldCommittee") {
+			return isOld, true
+		}
+		if strings.HasSuffix(n, "ReSharingParameters).IsNewCommittee") {
+			return isNew, true
+		}
+	case *ssa.UnOp:
+		if x.Op == token.NOT {
+			if b, ok := evalUnderRole(x.X, isOld, isNew, d+1); ok {
+				return !b, true
+			}
+		}
+	case *ssa.Phi:
+		// phi [p1: false, p2: false, pk: X] is c1 && c2 && … && X with ci the branch condition that
+		// left pi early; with `true` constants it is the disjunction
+		var consts []bool
+		var last ssa.Value
+		var conds []ssa.Value
+		for i, e := range x.Edges {
+			if b, ok := core.ConstBool(core.Strip(e)); ok {
+				consts = append(consts, b)
+				pred := x.Block().Preds[i]
+				iff, isIf := pred.Instrs[len(pred.Instrs)-1].(*ssa.If)
+				if !isIf {
+					return false, false
+				}
+				conds = append(conds, iff.Cond)
+			} else {
+				if last != nil {
+					return false, false
+				}
+				last = e
+			}
+		}
+		if last == nil || len(consts) == 0 {
+			return false, false
+		}
+		for _, b := range consts[1:] {
+			if b != consts[0] {
+				return false, false
+			}
+		}
+		isAnd := !consts[0]
+		allKnown := true
+		for _, cnd := range append(conds, last) {
+			b, ok := evalUnderRole(cnd, isOld, isNew, d+1)
+			if !ok {
+				allKnown = false
+				continue
+			}
+			if isAnd && !b {
+				return false, true
+			}
+			if !isAnd && b {
+				return true, true
+			}
+		}
+		if allKnown {
+			return isAnd, true
+		}
+	}
+	return false, false
+}
+
+func roleEdgesByFacts(fn *ssa.Function, isOld, isNew bool) map[core.CFGEdge]bool {
 	return core.EdgesWhere(fn, func(f core.Fact) bool {
 		if f.Kind != core.FCall {
 			return false
